@@ -2,7 +2,9 @@ package main
 
 import (
 	"fmt"
+	"io/fs"
 	"strings"
+	"time"
 
 	"github.com/avfs/avfs"
 	"github.com/avfs/avfs/verifrt"
@@ -39,7 +41,7 @@ func osTypeOf(win bool) avfs.OSType {
 // newSide builds a fresh instance with one system directory (the temp dir),
 // umask 022 and the current directory set to the root (explicit Chdir; its
 // result is returned: OrefaFS cannot address its root, under either OS type).
-func newSide(kind string, win bool) (s *side, chdir fsx.Res, err error) {
+func newSide(kind string, win bool) (s *side, chdir result, err error) {
 	s = &side{kind: kind, win: win, root: "/"}
 	tmp := "/tmp"
 
@@ -69,7 +71,7 @@ func newSide(kind string, win bool) (s *side, chdir fsx.Res, err error) {
 	}
 
 	_ = s.v.SetUMask(0o022)
-	chdir = fsx.Do(s.v, fsx.Call{Op: "Chdir", A: s.root})
+	_, chdir = s.do(fsx.Call{Op: "Chdir", A: "/"})
 
 	return s, chdir, nil
 }
@@ -113,20 +115,136 @@ func (s *side) concrete(c fsx.Call) fsx.Call {
 	return c
 }
 
+// result is the classified outcome of a call plus the type family of the
+// innermost error value (family()).
+type result struct {
+	fsx.Res
+	Fam string
+}
+
 // do executes the portable call with a harness-owned, per-call deterministic
 // random sequence ("0","1","0",...) so that both sides see the same temp names
-// and collisions are forced.
-func (s *side) do(c fsx.Call) (fsx.Call, fsx.Res) {
-	cc := s.concrete(c)
+// and collisions are forced. Panics and decided deadlocks are outcomes.
+func (s *side) do(c fsx.Call) (fsx.Call, result) {
+	return s.doConcrete(s.concrete(c))
+}
+
+func (s *side) doConcrete(cc fsx.Call) (fsx.Call, result) {
 	n := 0
 
 	verifrt.SetRandom(func() string { n++; return string(rune('0' + (n-1)%2)) })
 
-	r := fsx.Do(s.v, cc)
+	var (
+		val string
+		err error
+	)
+
+	k, msg := fsx.Guard(func() { val, err = rawCall(s.v, cc) })
 
 	verifrt.SetRandom(nil)
 
+	if k != "" {
+		return cc, result{Res: fsx.Res{Kind: k, Msg: msg}, Fam: k}
+	}
+
+	r := result{Res: fsx.Res{Kind: fsx.ErrKind(err), Val: val}, Fam: family(err)}
+	if err != nil {
+		r.Msg = err.Error()
+	}
+
 	return cc, r
+}
+
+// rawCall performs one namespace call and returns the canonical rendering of
+// the returned value (as fsx.Do does) and the raw error.
+func rawCall(v avfs.VFS, c fsx.Call) (val string, err error) {
+	perm := fsx.UnixMode(c.Perm)
+
+	closeIf := func(f avfs.File, err error) {
+		if err == nil {
+			_ = f.Close()
+		}
+	}
+
+	switch c.Op {
+	case "Mkdir":
+		return "", v.Mkdir(c.A, perm)
+	case "MkdirAll":
+		return "", v.MkdirAll(c.A, perm)
+	case "Remove":
+		return "", v.Remove(c.A)
+	case "RemoveAll":
+		return "", v.RemoveAll(c.A)
+	case "Create":
+		f, err := v.Create(c.A)
+		closeIf(f, err)
+
+		return "", err
+	case "OpenFile":
+		f, err := v.OpenFile(c.A, c.Flag, perm)
+		closeIf(f, err)
+
+		return "", err
+	case "WriteFile":
+		return "", v.WriteFile(c.A, []byte(c.Data), perm)
+	case "Truncate":
+		return "", v.Truncate(c.A, c.N)
+	case "Chtimes":
+		t := fsx.FixedTime.Add(time.Duration(c.N) * time.Second)
+
+		return "", v.Chtimes(c.A, t, t)
+	case "Chdir":
+		return "", v.Chdir(c.A)
+	case "CreateTemp":
+		f, err := v.CreateTemp(c.A, c.B)
+		if err == nil {
+			val = f.Name()
+			_ = f.Close()
+		}
+
+		return val, err
+	case "MkdirTemp":
+		return v.MkdirTemp(c.A, c.B)
+	case "Stat", "Lstat":
+		var fi fs.FileInfo
+
+		if c.Op == "Stat" {
+			fi, err = v.Stat(c.A)
+		} else {
+			fi, err = v.Lstat(c.A)
+		}
+
+		if err == nil {
+			val = fi.Name() + " " + fsx.InfoString(v, fi)
+		}
+
+		return val, err
+	case "ReadDir":
+		es, err := v.ReadDir(c.A)
+
+		var names []string
+		for _, e := range es {
+			names = append(names, e.Name()+fsx.TypeChar(e.Type()))
+		}
+
+		return strings.Join(names, ","), err
+	case "ReadFile":
+		b, err := v.ReadFile(c.A)
+
+		return fmt.Sprintf("%q", b), err
+	case "Readlink":
+		return v.Readlink(c.A)
+	case "EvalSymlinks":
+		return v.EvalSymlinks(c.A)
+	case "Rename":
+		return "", v.Rename(c.A, c.B)
+	case "Link":
+		return "", v.Link(c.A, c.B)
+	case "Symlink":
+		return "", v.Symlink(c.A, c.B)
+	}
+
+	panic("c17: unknown op " + c.Op)
 }
 
 // normPath makes an absolute or relative path of this instance portable:
